@@ -49,3 +49,17 @@ W ulong w_off_ofl_node_size() { return offsetof(ordered_free_memory_list, node_s
 W ulong w_off_ofl_capacity() { return offsetof(ordered_free_memory_list, capacity_); }
 W ulong w_off_ofl_last_dealloc() { return offsetof(ordered_free_memory_list, last_dealloc_); }
 W ulong w_off_ofl_last_dealloc_prev() { return offsetof(ordered_free_memory_list, last_dealloc_prev_); }
+
+W ulong w_off_sfl_base() { return offsetof(small_free_memory_list, base_); }
+W ulong w_off_sfl_node_size() { return offsetof(small_free_memory_list, node_size_); }
+W ulong w_off_sfl_capacity() { return offsetof(small_free_memory_list, capacity_); }
+W ulong w_off_sfl_alloc_chunk() { return offsetof(small_free_memory_list, alloc_chunk_); }
+W ulong w_off_sfl_dealloc_chunk() { return offsetof(small_free_memory_list, dealloc_chunk_); }
+W ulong w_off_chunk_prev() { return offsetof(chunk_base, prev); }
+W ulong w_off_chunk_next() { return offsetof(chunk_base, next); }
+W ulong w_off_chunk_first_free() { return offsetof(chunk_base, first_free); }
+W ulong w_off_chunk_capacity() { return offsetof(chunk_base, capacity); }
+W ulong w_off_chunk_no_nodes() { return offsetof(chunk_base, no_nodes); }
+W ulong w_chunk_memory_offset() { return chunk_memory_offset; }
+W ulong w_chunk_max_nodes() { return chunk_max_nodes; }
+W ulong w_sfl_find_chunk(void* o, ulong n) { return static_cast<small_free_memory_list*>(o)->find_chunk(n); }
